@@ -479,10 +479,22 @@ class CrawlRun(object):
 
 
 def read_rows(db_path, run):
-    con = sqlite3.connect(db_path)
+    """The rows of the URL table.  Read from a COPY of the database and its side files (-wal, -shm, -journal): opening
+    the original would replay and checkpoint the write-ahead log, i.e. change what the next process finds on disk."""
+    import shutil
+    import tempfile
+    d = tempfile.mkdtemp(prefix='dbcopy_')
     try:
-        cur = con.execute('select s.url, q.status, q.try_count, q.level, q.inline_level from queued_urls q '
-                          'join url_strings s on s.id = q.url_string_id order by q.id')
-        return [[run.uid(r[0]), r[1], r[2] or 0, r[3] or 0, r[4] or 0, r[0]] for r in cur.fetchall()]
+        cp = os.path.join(d, 'copy.db')
+        for suffix in ('', '-wal', '-shm', '-journal'):
+            if os.path.exists(db_path + suffix):
+                shutil.copy(db_path + suffix, cp + suffix)
+        con = sqlite3.connect(cp)
+        try:
+            cur = con.execute('select s.url, q.status, q.try_count, q.level, q.inline_level from queued_urls q '
+                              'join url_strings s on s.id = q.url_string_id order by q.id')
+            return [[run.uid(r[0]), r[1], r[2] or 0, r[3] or 0, r[4] or 0, r[0]] for r in cur.fetchall()]
+        finally:
+            con.close()
     finally:
-        con.close()
+        shutil.rmtree(d, ignore_errors=True)
